@@ -63,6 +63,17 @@ func runC10(k *kernel.K) {
 		sv.NoAutoGrant = true
 		sv.Script = []*H2Op{{Kind: "settings", Settings: []http2.Setting{{ID: http2.SettingInitialWindowSize, Val: 0}}}, resp(1)}
 		cl.Script = append(cl.Script, req(1), data(1, 5000, false), data(1, 5000, false), req(3), data(3, 5000, false))
+		if w.Chance(1, 3) {
+			// variant: the server starts with the default windows and never grants more; the client
+			// sends so many small frames that, once the 65535 bytes are used up, more frames than
+			// the relay's output channel holds are queued behind the window
+			sv.Script = []*H2Op{{Kind: "settings"}, resp(1)}
+			sv.NeverGrant = true
+			cl.Script = []*H2Op{{Kind: "settings"}, req(1)}
+			for i, m := 0, 185+w.Draw(40); i < m; i++ {
+				cl.Script = append(cl.Script, data(1, 400, false))
+			}
+		}
 	case "output_full_to_server", "output_full_to_client":
 		// One direction of the relay cannot write (peer's socket buffer full and not drained)
 		// while more frames than the output channel holds keep coming.
@@ -174,6 +185,19 @@ func runC10(k *kernel.K) {
 		}
 	}})
 	k.Drain()
+	if state == "blocked_on_window" && event == "client_closes" && w.Chance(1, 2) {
+		// The survivor is not merely passive: after the client has gone the server opens its
+		// windows wide, but reads slowly (its socket buffer is small and not drained).
+		if d, _ := hw.done(); !d && !sv.EOF && !sv.RST {
+			k.Probe("survivor_grants_then_reads_slowly")
+			hw.scSys.SetCap(300)
+			hw.scSys.Stall(true)
+			sv.GrantExtra(0, 1<<20)
+			sv.GrantExtra(1, 1<<20)
+			sv.GrantExtra(3, 1<<20)
+			k.Drain()
+		}
+	}
 	if illegalSettings && strings.HasPrefix(event, "garbage_from_") && !strings.HasPrefix(state, "output_full") {
 		// (with a full output channel the relay may not even read the illegal frame: that is the
 		// known finding about blocked readers, judged by the checks below without extra traffic)
